@@ -323,6 +323,15 @@ def map_failures(unit, res, linemap):
             undec.append('%s: %s' % (unit.NAME, msg[:300]))
             continue
         ps = prim[0]
+        foreign = not ps.get('file_name', '').endswith(unit.NAME + '.rs')
+        if foreign:
+            # the failed clause lives in vstd (e.g. the PartialEq/Ord/From spec an impl must obey): charge it to the function
+            # whose body is named by the in-bundle span of the same diagnostic
+            local = [s for s in d.get('spans', []) if s.get('file_name', '').endswith(unit.NAME + '.rs')]
+            if not local:
+                undec.append('%s: %s (no span inside the bundle)' % (unit.NAME, msg))
+                continue
+            ps = local[0]
         hit = seg_at(linemap, ps['line_start'])
         seg = hit[0] if hit else None
         if seg is None or seg.item is None or '::' in (seg.item or ''):
@@ -334,7 +343,11 @@ def map_failures(unit, res, linemap):
         f = dict(unit=unit.NAME, item=seg.item, kind=kind, message=msg, rendered=d.get('rendered', ''))
         if seg.src_file:
             f['src'] = '%s:%d' % (seg.src_file, seg.src_line + (hit[1] if seg.region in ('body', 'sig') else 0))
-        if kind == 'ensures' and seg.region == 'ensures':
+        if foreign and seg.region in ('body', 'body-other', 'sig', 'stubbody'):
+            f['obligation'] = '%s.std_trait_spec' % base
+            f['detail'] = kind
+            f['props'] = list(it.props)
+        elif kind == 'ensures' and seg.region == 'ensures':
             f['obligation'] = '%s.ensures.%s' % (base, seg.clause)
             f['props'] = list(it.props)
             ex = [s for s in sec if 'exit' in (s.get('label') or '')]
@@ -606,6 +619,30 @@ def report(prop, cfg, args, results, seed, t0, th, unsafe_hits, exp_s, scratch, 
                 line = 'VIOLATION property=%s replay=%s' % (prop, path)
             vio_lines.append(line)
         rc = 1
+    # bounded stand-in on the REAL interpreter (labelled bounded, never counted as proved): always in the thorough tier, and
+    # whenever the proof is undecided; it can raise an alarm only through a concrete failing input of the real code
+    bounded = None
+    if (undec and not viol) or args.tier == 'thorough':
+        try:
+            import replay_search
+            if prop in replay_search.SUITES or prop == 'C14':
+                binp, cleanup = replay_search.build(scratch.repo)
+                try:
+                    total, fails = replay_search.evaluate(binp, prop, limit=3)
+                finally:
+                    cleanup()
+                bounded = dict(label='BOUNDED stand-in: grid of programs run on the real interpreter built from this tree, compared with '
+                                     'exact Python reference semantics; not a proof, never counted in obligations/discharged',
+                               suite=(replay_search.SUITES[prop].__doc__ if prop in replay_search.SUITES else 'crash-freedom over the C06/C07/C08/C10/C11 grids'),
+                               cases=total, failing=len(fails))
+                import replay
+                for k, w in enumerate(fails):
+                    w = dict(w, kind='interpreter-grid', property=prop)
+                    path = replay.write_bounded(prop, w, k)
+                    vio_lines.append('VIOLATION property=%s replay=%s' % (prop, path))
+                    rc = 1
+        except Exception as e:  # the stand-in must never turn a tool problem into an alarm
+            bounded = dict(label='bounded stand-in did not run', error=repr(e)[:300])
     if undec:
         for u in undec:
             log('UNDECIDED property=%s reason=%s' % (prop, u))
@@ -642,9 +679,11 @@ def report(prop, cfg, args, results, seed, t0, th, unsafe_hits, exp_s, scratch, 
             extraction_drops=P.EXTRACTION_DROPS, not_covered=cfg.get('not_covered', ''),
         )
         cov.update(extra or {})
+        if bounded is not None:
+            cov['bounded'] = bounded
         ev = dict(property_id=prop, tier=args.tier, seed=seed, level='proof', coverage=cov,
                   assumptions=P.ASSUMPTIONS + cfg.get('assumptions', []), wall_s=round(time.time() - t0, 2),
-                  violations=len(viol))
+                  violations=len(vio_lines))
         if not mine or rc == 2:
             ev['level'] = 'other'
             cov['explanation'] = 'undecided run: ' + '; '.join(undec)[:2000]
